@@ -148,6 +148,11 @@ YR_API int yr_rules_define_string_variable(
           external->type != EXTERNAL_VARIABLE_TYPE_MALLOC_STRING)
         return ERROR_INVALID_EXTERNAL_VARIABLE_TYPE;
 
+      char* new_value = yr_strdup(value);
+
+      if (new_value == NULL)
+        return ERROR_INSUFFICIENT_MEMORY;
+
       if (external->type == EXTERNAL_VARIABLE_TYPE_MALLOC_STRING &&
           external->value.s != NULL)
       {
@@ -155,12 +160,9 @@ YR_API int yr_rules_define_string_variable(
       }
 
       external->type = EXTERNAL_VARIABLE_TYPE_MALLOC_STRING;
-      external->value.s = yr_strdup(value);
+      external->value.s = new_value;
 
-      if (external->value.s == NULL)
-        return ERROR_INSUFFICIENT_MEMORY;
-      else
-        return ERROR_SUCCESS;
+      return ERROR_SUCCESS;
     }
 
     external++;
